@@ -1811,7 +1811,9 @@ def run(seed: int, n: int, driver: str = DEFAULT_DRIVER, thorough: bool = False)
         if status == "error":
             o["failures"].append({"case": case, "detail": s})
             continue
-        small = shrink(steps) if len(o["failures"]) < 5 else steps
+        # a session with a failing call is never shrunk: what that call left behind in this process would make every
+        # shortened candidate fail too
+        small = shrink(steps) if len(o["failures"]) < 5 and tainted is None and not any(x[0].startswith("fail") for x in steps) else steps
         st2, s2 = run_session(small)
         if st2 != "fail":
             small, s2 = steps, s
